@@ -29,6 +29,9 @@ DISP_FULL = {"FE": [0.3463, 0.8444], "O": [0.0106, 0.0060]}
 DISP_PART = {"FE": [0.3463, 0.8444], "O": None}
 
 
+HIST_GROUPS = (1, 2, 4, 14, 19, 62, 75, 76, 88, 92, 143, 146, 150, 167, 168, 194, 195, 198, 205, 216, 225, 227)
+
+
 def hkls(tier):
     if tier == "quick":
         return alph.hkl_box(1, zero=True) + [(2, 1, 0), (1, 2, 3), (-2, 1, 3), (3, -1, 2), (0, 0, 2), (0, 0, 3), (0, 0, 4), (2, 2, 1), (0, 2, 0),
@@ -52,7 +55,7 @@ def cases(tier, seed):
         if tier == "quick":
             cells = cells[:1] if g.crystal_system not in ("triclinic", "monoclinic") else [cells[0], cells[2]]
         for ci, cell in enumerate(cells):
-            for part in ("general", "special"):
+            for part in ("general", "special") + (("history",) if ci == 0 and (tier == "thorough" or no in HIST_GROUPS) else ()):
                 cs.append({"no": no, "cc": cc, "name": names[(no, cc)][ci % len(names[(no, cc)])], "cell": cell, "part": part, "tier": tier})
     return cs
 
@@ -113,12 +116,45 @@ def check_case(case):
             ueq = [uiso * C[0, 0], uiso * C[1, 1], uiso * C[2, 2], uiso * C[1, 2], uiso * C[0, 2], uiso * C[0, 1]]
             ani = [dict(base[0], adp_type="Uani", adp=ueq)]
             r.check("Uiso=Uani/scale", abs(F_of(ani, DISP_FULL, h) - F0) / scale, 1e-9, "%s:isoani:h=%s" % (tag, h), "Uiso and the equivalent Uani give the same F")
+        # occupancy exactly 0 (end point of "linear in occupancy") and very small occupancy
+        for occ0 in (0.0, 1e-12):
+            with0 = [dict(el="FE", pos=(0.1234, 0.2345, 0.3456), adp_type="Uiso", adp=0.012, occ=0.8, mult=g.nsymop),
+                     dict(el="O", pos=(0.41, 0.07, 0.77), adp_type="Uiso", adp=0.02, occ=occ0, mult=g.nsymop)]
+            compare(with0, DISP_FULL, "general:occ=%g" % occ0, hk=hk)
         zero = [dict(el="FE", pos=(0.1234, 0.2345, 0.3456), adp_type="Uiso", adp=0.0, occ=0.8, mult=g.nsymop),
                 dict(el="O", pos=(0.41, 0.07, 0.77), adp_type=None, adp=None, occ=0.5, mult=g.nsymop)]
         f000 = F_of(zero, None, (0, 0, 0))
         want = g.nsymop * (0.8 * O.formfactor_ref(ff["FE"], 0.0) + 0.5 * O.formfactor_ref(ff["O"], 0.0))
         r.check("F000/scale", abs(f000 - want) / scale, 1e-9, "%s:F000" % tag, "F(000) at zero displacement = occupancy-weighted form-factor sum", want, [f000.real, f000.imag])
         r.states = len(H) * 5 + len(hk) * 3
+    elif case["part"] == "history":
+        # the SAME atom objects evaluated first in this cell and group, then in other cells / with adp edited in place, then here again
+        ctxs = [(name, cell), (name, [x * (1.07 if i < 3 else 1.0) for i, x in enumerate(cell)])]
+        other = "p-1" if g.crystal_system != "triclinic" else "p1"
+        ctxs.append((other, [5.3, 6.1, 7.9, 81.0, 98.0, 103.0]))
+        spec = [dict(el="FE", pos=(0.1234, 0.2345, 0.3456), adp_type="Uani", adp=[0.010, 0.020, 0.015, 0.003, -0.004, 0.005], occ=0.8, mult=g.nsymop),
+                dict(el="O", pos=(0.41, 0.07, 0.77), adp_type="Uiso", adp=0.02, occ=1.0, mult=g.nsymop)]
+        hk = [(1, 0, 0), (0, 1, 1), (1, 2, 1), (2, -1, 1), (0, 0, 0)]
+        for i, j in itertools.product(range(len(ctxs)), repeat=2):
+            atoms = make_atoms(structure, spec)
+            for step, (nm, cl) in enumerate((ctxs[i], ctxs[j], ctxs[i])):
+                gg = sg.sg(sgname=nm)
+                oo = O.exact_ops(gg)
+                sp = [dict(a, mult=gg.nsymop) for a in spec]
+                if step == 2:
+                    atoms[0].adp[0] = 0.031  # caller edits the ADP list in place
+                    sp[0] = dict(sp[0], adp=[0.031] + list(spec[0]["adp"][1:]))
+                for a in atoms:
+                    a.symmulti = gg.nsymop
+                scale = sum(a["occ"] * O.Z[a["el"]] * a["mult"] for a in sp)
+                for h in hk:
+                    got = complex(*structure.StructureFactor(h, cl, nm, atoms, DISP_FULL))
+                    ref = O.p1_structure_factor(h, cl, gg.rot, gg.trans, oo, sp, DISP_FULL, ff)
+                    dev = max(abs(got.real - ref.real), abs(got.imag - ref.imag)) / scale
+                    r.check("history-F-vs-P1-sum/scale", dev, 1e-9, "%s:history:%d>%d:step%d:h=%s" % (tag, i, j, step, h),
+                            "StructureFactor = explicit sum also when the same atom objects were used before with another cell / group / ADP")
+            r.nontrivial.add("Sg%d/%s:history:%d>%d" % (case["no"], case["cc"], i, j))
+        r.states = len(ctxs)
     else:
         # up to three special positions with different orbit sizes (first ones in grid order)
         specials = []
